@@ -100,6 +100,9 @@ func TestVerifRunner(t *testing.T) {
 				// the same node name carries quite different handlers from one discovery to the next
 				eventName: fmt.Sprintf("event%d", len(infos)),
 			})
+			if len(toks) > 9 {
+				infos[len(infos)-1].eventName = toks[9]
+			}
 		case "norm":
 			res := ""
 			func() {
